@@ -116,7 +116,7 @@ theorem lineLoopX_eq (X : Ctx) (F : SegFacts src segs) (Z : ∀ s ∈ segs, s.pa
         obtain ⟨v', c', q1, q2, q3⟩ := r2
         obtain ⟨st2, c2, g1, g2, g3⟩ := endOfLine_total X F Z (flags := (classify line).2) q1
         simp only [BlockReader.position, hI.rs.abs.line, ← q3, g1]
-        exact ih s'.escaped st2 c2 g2 (by omega)
+        exact ih false st2 c2 g2 (by omega)
 
 /-- the whole inline phase of a block over such a table -/
 theorem parseBlockX_eq (W : WFSegs src segs) (Z : ∀ s ∈ segs, s.padding = 0) (env : Env)
